@@ -14,8 +14,8 @@ use self::{
     conditional::{looks_like_conditional, parse_conditional},
     expression::{parse_bool, parse_call_like, parse_expression, parse_path_identifier},
     inline::{
-        parse_divert, parse_divert_line, parse_thread_divert, split_inline_divert,
-        tokenize_inline_content,
+        end_text_before_divert, parse_divert, parse_divert_line, parse_thread_divert,
+        split_inline_divert, tokenize_inline_content,
     },
     sequence::{looks_like_sequence, parse_sequence},
 };
